@@ -19,6 +19,8 @@ package main
 //   Steps between X and U (and before the first U) are executed by the parent: the system is down.
 //   The last run has no X: the child waits until idle and exits.
 //
+//   If the last run dies (a panic), one more run without steps follows (a supervisor restarts file.d).
+//
 // result: the observed trace (records in the order the code serialised them), then the summary
 //   `lost <n> (<id> <cls>)…` — complete lines that are neither acked in any run nor handed to the
 //   output in the last run; cls 0 = the line's stream is absent from the saved offsets of its file at
@@ -481,7 +483,19 @@ func execC03(t *hx.Toks) string {
 				}
 			}
 			if final {
+				// the last run died (it has no kill of its own): a supervisor would start file.d again.
+				// One recovery run, so that the summary is taken at an idle state and not at the death.
 				pos = len(c.steps)
+				run++
+				tr2 := filepath.Join(dir, fmt.Sprintf("trace%d.log", run))
+				killed2, code2 := c03RunChild(c, dir, run, tr2)
+				for _, l := range c03ReadTrace(tr2) {
+					add(l)
+				}
+				if killed2 || code2 != 0 {
+					add("died")
+					add("crash")
+				}
 			} else {
 				pos = segEnd + 1
 			}
@@ -932,7 +946,10 @@ func c03ChildMain(dir string, run int) {
 		}
 	}
 	if start < 0 {
-		os.Exit(4)
+		if run != u+1 {
+			os.Exit(4)
+		}
+		start = len(c.steps) // recovery run after a death of the last scripted run: no steps, run until idle
 	}
 	logs := filepath.Join(dir, "logs")
 	h := &c03Child{c: c, dir: dir, logs: logs, run: run, paths: c03Paths(c, logs, start), srcToF: map[uint64]int{}, passed: map[string]int{}, outs: map[string]int{}}
